@@ -230,15 +230,24 @@ class ScoreSys:
         dis = []
         if op[0] == 'finish':
             tail = op[1]
-            if any(e[0] == tail for e in self.ref.items):
-                self.tie = True
-            self.ref.add(float(tail), 'tail')
             self.finished = True
             try:
                 self.score.finish(tail)
                 lst = [[b[0], b[1][0]] for b in self.score.list]
             except Exception as e:
                 return [('score-finish-raises', None, repr(e), '')]
+            # which time the closing command gets is C07's business (after
+            # the last bundle + tail): the model takes the time the library
+            # gave it and judges the order only - it is the most recent
+            # entry of its time
+            at = [b[0] for b in lst if b[1] == '/c_set']
+            if len(at) != 1 or not isinstance(at[0], (int, float)) or \
+                    at[0] != at[0]:
+                return [('score-closing-command-not-listed-once', 1,
+                         repr(at), '')]
+            if any(e[0] == at[0] for e in self.ref.items):
+                self.tie = True
+            self.ref.add(float(at[0]), 'tail')
             exp = [[p, self._tag(t)] for p, t in self.ref.listing()]
             if lst != exp:
                 dis.append(('score-finished-order', exp, lst,
